@@ -904,20 +904,23 @@ func (s *SecureChannel) scheduleExpiration(instance *channelInstance) {
 	s.instancesMu.Lock()
 	defer s.instancesMu.Unlock()
 
-	oldInstances := s.instances[instance.securityTokenID]
+	// s.instances is keyed by the secure channel id (see
+	// handleOpenSecureChannelResponse), and a server may re-use the token id
+	// when it renews, so the expired instance is identified by itself.
+	oldInstances := s.instances[instance.secureChannelID]
 
-	s.instances[instance.securityTokenID] = []*channelInstance{}
+	s.instances[instance.secureChannelID] = []*channelInstance{}
 
 	for _, oldInstance := range oldInstances {
 		if oldInstance.secureChannelID != instance.secureChannelID {
 			// something has gone horribly wrong!
 			debug.Printf("uasc %d: secureChannelID mismatch during scheduleExpiration!", s.c.ID())
 		}
-		if oldInstance.securityTokenID == instance.securityTokenID {
+		if oldInstance == instance {
 			continue
 		}
-		s.instances[instance.securityTokenID] = append(
-			s.instances[instance.securityTokenID],
+		s.instances[instance.secureChannelID] = append(
+			s.instances[instance.secureChannelID],
 			oldInstance,
 		)
 	}
